@@ -1,7 +1,9 @@
+\* binding T: the configurations are the loop bodies exported from the scripts that the
+\* real evaluable.compile generated (JSON table in env VF_TABLE), 2 processes x 2 iterations
 SPECIFICATION SpecT
 CONSTANTS
-  MaxProcs = 3
-  Configs <- ConfigsQuick
+  MaxProcs = 2
+  Configs <- ConfigsTable
   MaxFaults = 1
   LockedClaim = TRUE
   CheckExit = TRUE
